@@ -32,7 +32,7 @@ Failure keys (fixed; classified by tool + construct, never by the input):
      (node kinds: the 23 `astq` kinds int str var binop let assign update if while for match return break continue
       list tuple call mcall lambda assert paren invalid unsup),
   C21/add-type-annotation/{wrong-text,does-not-parse,new-diagnostic,behaviour-changed}/<site>/<type shape>
-     (site: let | let-in-closure | param | return | closure-param | closure-return; type shape: Int String Bool Unit List Tuple Option Result Fun NoValue
+     (site: let | let-in-closure | param | return | return-with-early-return | closure-param | closure-return; type shape: Int String Bool Unit List Tuple Option Result Fun NoValue
       generic struct-missing-type-args other).
 """
 import os
@@ -97,6 +97,22 @@ fun early(n: Int) {
 fun early2(n: Int) {
   if n > 1 { return "x" }
   1
+}
+fun pickx(x, fallback: Bool) {
+  if fallback { return x }
+  1
+}
+fun pickif(n: Int, y) {
+  if n > 5 { return if n > 8 { y } else { 2 } }
+  3
+}
+fun pickm(o, n: Int) {
+  if n > 1 { return match o { Some(q) => { q } None => { 0 } } }
+  7
+}
+fun pickp(n: Int, y) {
+  if n > 1 { return (y) }
+  "tail"
 }
 fun firsts<T>(xs: List<T>): List<T> {
   xs
@@ -202,6 +218,13 @@ def gen_typed_program(rng):
             out.append("println(string_repr(%s(%s)))" % (fname, args))
     out += stmts(0, 0)
     out.append('println(early(2) ^ early(0))')
+    # early returns of values the checker types as Any, every path taken, with values of different runtime types
+    out += ['println(string_repr(pickx("spare", True)))', "println(string_repr(pickx(2, False)))",
+            'println(string_repr(pickif(9, "y")))', "println(string_repr(pickif(6, 1)))", "println(string_repr(pickif(1, 1)))",
+            'println(string_repr(pickm(Some("s"), 2)))', "println(string_repr(pickm(None, 2)))", "println(string_repr(pickm(None, 0)))",
+            "println(string_repr(pickp(2, 5)))", "println(string_repr(pickp(0, 5)))",
+            "let lamr = fun(x, fb: Bool) {\n  if fb { return x }\n  1\n}",
+            'println(string_repr(lamr("l", True)))', "println(string_repr(lamr(0, False)))"]
     return "\n".join(out) + "\n", feats
 
 
@@ -287,6 +310,16 @@ def annotation_sites(astq_text, src):
 
     depth = [0]
 
+    def has_return(x):
+        """a `return` in the body, not inside a nested closure"""
+        if not isinstance(x, list) or not x:
+            return False
+        if x[0] == "return":
+            return True
+        if x[0] in ("lambda", "s", "sym", "destr", "hint"):
+            return False
+        return any(has_return(y) for y in x[1:])
+
     def header(params, rh, block, trigger, kind_ret="return"):
         block_start = int(block[1])
         ret_ins = b.rfind(b")", 0, block_start) + 1
@@ -299,10 +332,11 @@ def annotation_sites(astq_text, src):
             if empty and sym[1] != "_":
                 allowed = {int(sym[3]): ("param", i)}
                 if rempty:
-                    allowed[ret_ins] = ("return", ri)
+                    allowed[ret_ins] = ("return-with-early-return" if has_return(block) else "return", ri)
                 sites.append(("param", int(sym[2]), int(sym[3]), i, allowed))
         if rempty and trigger is not None:
-            sites.append(("return", trigger[0], trigger[1], ri, {ret_ins: ("return", ri)}))
+            rk = "return-with-early-return" if has_return(block) else "return"
+            sites.append((rk, trigger[0], trigger[1], ri, {ret_ins: (rk, ri)}))
         walk(block)
 
     def walk(x):
@@ -318,7 +352,7 @@ def annotation_sites(astq_text, src):
             header(x[5], x[6], x[7], (open_paren, open_paren + 1))
             depth[0] -= 1
             # the header sites of a closure are keyed apart from those of toplevel functions
-            ren = {"param": "closure-param", "return": "closure-return"}
+            ren = {"param": "closure-param", "return": "closure-return", "return-with-early-return": "closure-return"}
             for q in range(n0, len(sites)):
                 sk, a0, a1, sl, al = sites[q]
                 if sk in ren and (a0, a1) in ([(open_paren, open_paren + 1)] + [(int(p_[1][2]), int(p_[1][3])) for p_ in x[5][1:]]):
